@@ -1,6 +1,7 @@
 package check
 
 import (
+	"math"
 	"go.flow.arcalot.io/engine/zverif/harness"
 	"go.flow.arcalot.io/engine/zverif/ir"
 	"pgregory.net/rapid"
@@ -148,7 +149,15 @@ func init() {
 				// connection-level misbehaviour: the stream dies mid-message, the deployed plugin lacks the step, closing fails
 				return genS2(t, "C07", c07[1:2], 0, 0, 50)
 			}
-			return genS1(t, "C07", c07, rapid.Bool().Draw(t, "adv"))
+			c := genS1(t, "C07", c07, rapid.Bool().Draw(t, "adv"))
+			if rapid.IntRange(0, 5).Draw(t, "extreme_numbers") == 0 {
+				// schema-valid extremes: the arithmetic and conversion paths must take them without a panic
+				c.Doc["n"] = rapid.SampledFrom([]int64{-1, math.MaxInt64, math.MinInt64, math.MaxInt32 + 1, -7}).Draw(t, "extreme_n")
+				if rapid.Bool().Draw(t, "extreme_m") {
+					c.Doc["m"] = rapid.SampledFrom([]int64{-1, math.MaxInt64, math.MinInt64}).Draw(t, "extreme_m_v")
+				}
+			}
+			return c
 		},
 		Check: s1Check("C07", OracleC07),
 	})
